@@ -76,3 +76,48 @@ func (p *Set) BadUnionRankOfChild(x, y int) {
 	ds[a] = b
 	ds[a]--
 }
+
+// union without the already-joined test
+func (p *Set) BadUnionNoDistinctCheck(x, y int) {
+	ds := *p
+	a := ds.Find(x)
+	b := ds.Find(y)
+	if ds[a] < ds[b] {
+		ds[b] = a
+	} else {
+		ds[a] = b
+	}
+}
+
+func (ds Set) link(a, b int) {
+	if ds[a] < ds[b] {
+		ds[b] = a
+	} else if ds[b] < ds[a] {
+		ds[a] = b
+	} else {
+		ds[a] = b
+		ds[b]--
+	}
+}
+
+func (p *Set) GoodUnionViaHelper(x, y int) {
+	ds := *p
+	a := ds.Find(x)
+	b := ds.Find(y)
+	if a != b {
+		ds.link(a, b)
+	}
+}
+
+func (p *Set) BadUnionViaHelperFastPath(x, y int) {
+	ds := *p
+	if ds[x] < 0 && ds[y] < 0 {
+		ds.link(x, y)
+		return
+	}
+	a := ds.Find(x)
+	b := ds.Find(y)
+	if a != b {
+		ds.link(a, b)
+	}
+}
